@@ -101,8 +101,8 @@ fn grow_call<R>(rz: usize, size: usize, f: impl FnOnce() -> R) -> std::io::Resul
 }
 
 /// What happens at the start of every callback: was a fresh segment used, what does the code report.
-/// Returns the guard of the shadow entry (if a segment was pushed) and the "room" flag
-/// (`tolerant`: count the guard page, as the code does).
+/// Returns the guard of the shadow entry (if a segment was pushed) and the "room" flag: usable
+/// bytes (guard page excluded) below the stack pointer >= rz (`tolerant`: with a page of slack).
 fn callback_start(sp_call: usize, before: Option<Seg>, rz: usize, size: usize, tolerant: bool) -> (Option<ShadowGuard>, bool, bool) {
     let here = sp();
     let grew = match before {
@@ -117,10 +117,10 @@ fn callback_start(sp_call: usize, before: Option<Seg>, rz: usize, size: usize, t
     } else {
         None
     };
-    // `tolerant` (deep recursion): as the code counts (guard page included), with a page of slack
-    // for the frames between the code's own reading of the stack pointer and this one
+    // `tolerant` (deep recursion, where calls are not kept away from the threshold): a page of
+    // slack for the frames between the code's own reading of the stack pointer and this one
     let room = match cur_seg() {
-        Some(seg) if tolerant => (here + PAGE).saturating_sub(seg.lim) >= rz,
+        Some(seg) if tolerant => (here + PAGE).saturating_sub(seg.lim + PAGE) >= rz,
         Some(seg) => here.saturating_sub(seg.lim + PAGE) >= rz,
         None => true,
     };
@@ -172,7 +172,8 @@ fn run_seq(instrs: &[Value]) {
                 let d = depth();
                 let sp_call = sp();
                 let enough = match before {
-                    Some(seg) if BASE_KNOWN.with(Cell::get) || d > 0 => sp_call.saturating_sub(seg.lim) >= rz,
+                    // usable bytes: the guard page at the bottom of the segment does not count
+                    Some(seg) if BASE_KNOWN.with(Cell::get) || d > 0 => sp_call.saturating_sub(seg.lim + PAGE) >= rz,
                     _ => false,
                 };
                 let r = grow_call(rz, size, || {
